@@ -1,5 +1,6 @@
 import Driver.Proto
 import Gotree.Model.C09
+import Gotree.Model.C09Lit
 import Gotree.Spec.C09
 
 namespace Gotree.Driver.C09
@@ -25,12 +26,15 @@ def showObs (r : T) : String :=
 /-- the frequency table the theorems talk about (model vocabulary: `C09.count`,
     `lenM` over the branch lists of the unrooted trees) agrees with the one the
     oracle uses (Spec: over `T.usplitsAll`), row by row -/
-def tablesAgree (ts : List T) : Bool :=
-  let univ := univOf ts
+def tablesAgreeG (tm ts : List T) : Bool :=
+  let univ := univOf tm
   (allSides ts).all (fun s =>
     let k := bits univ s
-    C09.count ts k == C09S.count ts s && (!allLens ts || lenM univ (trees ts) k == lenSum ts s)) &&
-  (index ts).all (fun x => x.count == C09S.count ts (canonSide (taxa ts) x.key))
+    C09.count tm k == C09S.count ts s && (!allLens ts || lenM univ (trees tm) k == lenSum ts s)) &&
+  (index tm).all (fun x => x.count == C09S.count ts (canonSide (taxa ts) x.key))
+
+/-- `tm`: the collection as the theorems see it (tip roots moved to their neighbours, 5a3a76a) -/
+def tablesAgree (ts : List T) : Bool := tablesAgreeG (ts.map rerootTip) ts
 
 def parseDumps (s : String) : Option (List T) := (splitTerm "|" s).mapM T.undump
 
@@ -38,11 +42,13 @@ def parseDumps (s : String) : Option (List T) := (splitTerm "|" s).mapM T.undump
 def collTags (ts : List T) (c : Rat) : List String :=
   let nt := (allSides ts).filter fun s => decide (2 ≤ lightSize (taxa ts) s)
   let dom := !ts.isEmpty && ts.all domainTree && sameTaxa ts
+  let tm := ts.map rerootTip
   tagIf (ts.any (·.rooted)) "rooted" ++ tagIf (ts.any (!·.rooted)) "unrooted" ++
   tagIf (ts.any (·.rooted) && ts.any (!·.rooted)) "mixed" ++
   tagIf (ts.any fun t => t.rooted && t.kids.any (·.2.isLeaf)) "roottipchild" ++
   tagIf (ts.any (!·.binary)) "multif" ++
-  tagIf (ts.all domainTree) "domain" ++ tagIf (ts.all domainTreeWide && !(ts.all domainTree)) "single-child" ++ tagIf (sameTaxa ts) "sametaxa" ++ tagIf (noRepeat ts) "hyp-norepeat" ++ tagIf (domB ts) "hyp-dom" ++ tagIf (lensOK ts) "hyp-lensok" ++ tagIf (inRange c && selHyp ts c) "hyp-selok" ++
+  tagIf (ts.all domainTree) "domain" ++ tagIf (ts.all domainTreeWide && !(ts.all domainTree)) "single-child" ++ tagIf (sameTaxa ts) "sametaxa" ++ tagIf (noRepeat tm) "hyp-norepeat" ++ tagIf (domB tm) "hyp-dom" ++ tagIf (lensOK tm) "hyp-lensok" ++ tagIf (keysOK ts && keysOK tm) "hyp-keys" ++ tagIf (inRange c && selHyp tm c) "hyp-selok" ++
+  tagIf (ts.any fun t => t.kids.length == 1) "tip-rooted" ++
   tagIf (allLens ts) "alllens" ++ tagIf (!allLens ts) "absent-len" ++
   tagIf (c == 1) "strict" ++ tagIf (c == 1/2) "majority" ++
   tagIf (dom && inRange c && nt.any (fun s => C09S.freq ts s == c)) "tie-threshold" ++
@@ -78,12 +84,12 @@ def judge (tagsIn : List String) (c : Rat) (floorGo : Int) (ts : List T) (cls : 
   | none =>
     let dtags := tags ++ tagIf (demanded ts c == none) "out-of-domain" ++
       tagIf (demanded ts c == some false && inRange c) "rejected-taxa" ++ tagIf (!inRange c) "rejected-range"
-    let strict := demanded ts c == some true && ts.all domainTree
-    if demanded ts c == some true && !(tablesAgree ts && noRepeat ts) then
+    let tm := ts.map rerootTip
+    if demanded ts c == some true && !(tablesAgree ts && noRepeat tm) then
       ⟨.tie, dtags, "the model's frequency table (theorem vocabulary) differs from the Spec's, or a valid collection fails noRepeat"⟩ else
-    if demanded ts c == some true && !(domB ts) then
+    if demanded ts c == some true && !(domB tm) then
       ⟨.tie, dtags, "a collection of the Spec's domain is not in the domain domB of consensus_exact"⟩ else
-    if demanded ts c == some true && !(selHyp ts c) then
+    if demanded ts c == some true && !(selHyp tm c) then
       ⟨.tie, dtags, "a valid collection fails the hypothesis selOK of consensus_splits (selected rows not pairwise compatible)"⟩ else
     match consensus id ts c with
     | .unsupported => ⟨.pass, "skip-unsupported" :: dtags, ""⟩
@@ -92,7 +98,7 @@ def judge (tagsIn : List String) (c : Rat) (floorGo : Int) (ts : List T) (cls : 
     | .ok m =>
       match icls, res with
       | "ok", some r =>
-        if obsAgree r m then ⟨.pass, dtags, ""⟩
+        if obsAgree r m then ⟨.pass, Gotree.C09L.fidelity ((tagsIn.headD "").startsWith "cli") r ts c :: dtags, ""⟩
         else ⟨.tie, dtags, "model " ++ showObs m ++ " implementation " ++ showObs r⟩
       | _, _ => ⟨.tie, dtags, "model accepts, implementation: " ++ cls⟩
 
@@ -105,6 +111,21 @@ def handle (op : String) (f : List String) : Verdict :=
     match parseRat? cs, fl.toInt?, parseDumps dumps, parseRes cls res with
     | some c, some floorGo, some ts, some r => judge [kind] c floorGo ts cls r
     | _, _, _, _ => bad "C09.cons fields"
+  | "clif", [kind, mode, ftextE, fl, dumps, cls, res] =>
+    -- CLI with the threshold as text: `cmd/consensus.go` = parse the flag (model `cliCutoff`), then Consensus
+    match unescape ftextE, fl.toInt?, parseDumps dumps, parseRes cls res with
+    | some ftext, some floorGo, some ts, some r =>
+      let modeTags := match mode.toNat? with
+        | some m => tagIf (m % 2 == 1) "cli-stdin" ++ tagIf ((m / 2) % 2 == 1) "cli-nexus" ++ tagIf ((m / 4) % 2 == 1) "cli-outfile"
+        | none => []
+      (match cliCutoff (if ftext.isEmpty then none else some ftext) with
+       | none =>
+         if baseCls cls == "err" then ⟨.pass, [kind, "cli-flag-rejected"] ++ modeTags, ""⟩
+         else ⟨.tie, [kind] ++ modeTags, "the model rejects the text of -f, the command ran: " ++ cls⟩
+       | some c =>
+         if cls == "err:flag" then ⟨.tie, [kind] ++ modeTags, "the command rejects the text of -f, the model reads " ++ showRat c⟩
+         else judge ([kind] ++ modeTags) c floorGo ts cls r)
+    | _, _, _, _ => bad "C09.clif fields"
   | "inv", [kind, cs, fl, dumpsA, clsA, resA, dumpsB, clsB, resB] =>
     match parseRat? cs, fl.toInt?, parseDumps dumpsA, parseRes clsA resA, parseDumps dumpsB, parseRes clsB resB with
     | some c, some _, some a, some ra, some b, some rb =>
